@@ -150,6 +150,15 @@ def observe(cfg, tmp):
     crop2 = C.Crop(name="c07", parent_dir=parent)
     obs["reload_numbers"] = C.crop_numbers(crop2)
     obs["reload_num_sown"] = crop2.num_sown_batches
+    # ... and one re-created with the SAME arguments as the first (how a driver script that is run again
+    # reloads its crop): what was saved with the crop wins over the request
+    crop3 = C.Crop(farmer=farmer, **kw) if farmer is not None else C.Crop(fn=_fn, **kw)
+    crop3.num_sown_batches
+    obs["reload_same_args_numbers"] = C.crop_numbers(crop3)
+    try:
+        obs["reload_same_args_missing"] = list(crop3.missing_results())
+    except Exception as e:  # noqa
+        obs["reload_same_args_missing"] = f"{type(e).__name__}"
     return obs
 
 
@@ -189,6 +198,12 @@ def oracle(cfg, obs):
             bad.append(("by-count-uneven", f"batch sizes differ by more than one: {sizes}"))
     if obs["numbers"][:2] != obs["reload_numbers"][:2] or obs["numbers"][1] != B:
         bad.append(("reported-numbers", f"reported numbers {obs['numbers']} / after reload {obs['reload_numbers']} / files {B}"))
+    if obs.get("reload_same_args_numbers") is not None and (
+            obs["reload_same_args_numbers"][:2] != obs["numbers"][:2]
+            or obs.get("reload_same_args_missing") != list(range(1, B + 1))):
+        bad.append(("reload-with-same-arguments", f"a crop re-created with the original arguments reports "
+                    f"{obs['reload_same_args_numbers']} / missing {obs.get('reload_same_args_missing')}, the sown "
+                    f"crop reported {obs['numbers']} with {B} batch files"))
     if obs["num_sown"] != B or obs["reload_num_sown"] != B:
         bad.append(("num-sown", "num_sown_batches differs from the number of batch files"))
     return bad
